@@ -105,8 +105,10 @@ def stash_pop_shift(trace, viol):
     st = viol.get("step")
     # the commit made while the work was stashed changed the SAME file (that is what shifts the stashed lines)
     path = (viol.get("detail") or {}).get("path")
+    # (an edit that was itself stashed again - a second stash entry - is not part of that commit)
+    last_push = max(i for i, o in enumerate(_ops(trace)[:pop]) if _is_git(o, "stash", "push"))
     same_file_changed = _index_of(trace, lambda o: o.get("op") == "edit" and (path is None or path in (o.get("files") or {})),
-                                  push, pop) is not None
+                                  last_push, pop) is not None
     return between_commit is not None and same_file_changed and isinstance(st, int) and st > pop
 
 
@@ -410,13 +412,14 @@ def clock_order(trace, viol):
 
 @predicate("failed_head_lookup_skips_precommit")
 def failed_head_lookup_skips_precommit(trace, viol):
-    """an internal 'git rev-parse <branch/HEAD>' that fails with status 1 is read as "unborn branch":
+    """an internal 'git rev-parse <branch/HEAD>' that fails (any non-zero status: checkpoint::run maps every error of
+    head.target() to the base "initial") is read as "unborn branch":
     the pre-commit checkpoint then runs against the wrong working log and the commit goes ahead"""
     f = trace.get("fault") or (viol.get("detail") or {}).get("fault") or {}
     argv = f.get("argv") or []
     target = (trace.get("target") or {}).get("argv") or []
-    # exactly this: the lookup of HEAD / the current branch exits with status 1 while a commit is being wrapped
-    return f.get("family") == "git" and f.get("kind") == "fail:1" and "rev-parse" in argv and \
+    # exactly this: the lookup of HEAD / the current branch fails while a commit is being wrapped
+    return f.get("family") == "git" and (f.get("kind") or "").startswith("fail:") and "rev-parse" in argv and \
         any(a == "HEAD" or a.startswith("refs/heads/") for a in argv) and target[:1] == ["commit"] and \
         (viol.get("class") or "").startswith("attribution_invented_after_fault")
 
